@@ -4,6 +4,8 @@ import Astisub.Driver.IO
 import Astisub.Driver.LinCorr
 import Astisub.Driver.Lib
 import Astisub.Driver.SRT
+import Astisub.Driver.VTT
+import Astisub.Driver.SSA
 
 open Astisub Astisub.Driver Astisub.Proto
 
@@ -19,6 +21,8 @@ def handleLine (line : String) : Verdict :=
     else if op.startsWith "srt." then handleSRT op args impl
     else if op.startsWith "ts." then handleTs op args impl
     else if op.startsWith "io." || op == "lib.scanner" then handleIO op args impl
+    else if op.startsWith "vtt." then handleVTT op args impl
+    else if op.startsWith "ssa." then handleSSA op args impl
     else .bad s!"unknown stream {op}"
 
 structure Stats where
